@@ -1466,6 +1466,8 @@ void DOMLSSerializerImpl::procCdataSection(const XMLCh*   const nodeValue
 
     XMLCh* curPtr  = (XMLCh*) repNodeValue;
     XMLCh* nextPtr = 0;
+    XMLCh* cutPtr  = 0;
+    XMLCh  cutCh   = chCloseSquare;
     int    endTagPos = -1;
 
     bool   endTagFound = true;
@@ -1475,11 +1477,24 @@ void DOMLSSerializerImpl::procCdataSection(const XMLCh*   const nodeValue
         endTagPos = XMLString::patternMatch(curPtr, gEndCDATA);
         if (endTagPos != -1)
         {
-            nextPtr = curPtr + endTagPos + offset;  // skip the ']]>'
-            *(curPtr + endTagPos) = chNull;         //nullify the first ']'
             if (XMLSize_t(endTagPos) != len)
+            {
+                // a ']]>' inside the data: split between ']]' and '>' so that
+                // no character is lost (']]' ends this section, '>' starts the next)
                 reportError(nodeToWrite, DOMError::DOM_SEVERITY_WARNING, XMLDOMMsg::Writer_NestedCDATA);
-            len = len - endTagPos - offset;
+                endTagPos += 2;
+                cutPtr  = curPtr + endTagPos;       // the '>'
+                nextPtr = cutPtr;
+                len     = len - endTagPos;
+            }
+            else
+            {
+                cutPtr  = curPtr + endTagPos;       // the ']]>' appended above
+                nextPtr = cutPtr + offset;
+                len     = 0;
+            }
+            cutCh   = *cutPtr;
+            *cutPtr = chNull;                       // end the chunk here
         }
         else
         {
@@ -1503,7 +1518,7 @@ void DOMLSSerializerImpl::procCdataSection(const XMLCh*   const nodeValue
 
         if (endTagFound)
         {
-            *(nextPtr - offset) = chCloseSquare;   //restore the first ']'
+            *cutPtr = cutCh;                        // restore the character the chunk was ended at
             curPtr = nextPtr;
         }
     }
